@@ -235,6 +235,8 @@ class Associativity(E2Contract):
         chs = chains(4 if tier == "quick" else 5)
         if tier == "quick":
             chs = [c for c in chs if len(c) <= 4]
+            # a gate applied after two measurement processes of different outcome counts (the multi-index shape must survive the gate)
+            chs.append((("gate", 0), ("mprocess", 3), ("mprocess", 2), ("state", 0)))
         return [("1q", c) for c in chs]
 
     def inputs(self, W, cfg, mk):
@@ -321,7 +323,8 @@ class Associativity(E2Contract):
             cl.append(eq(f"statistics[{tag}]", r[2], ps_ref,
                          "outcome probabilities == the chain's Born statistics, serial order = earlier measurement first"))
             shape = list(r[3])
-            if len(shape) == len(counts):
+            if len(shape) == len(counts) or chain[0][0] != "povm":
+                # (only a bracketing that first folds a POVM into a measurement process yields a POVM, whose outcomes are flat by construction)
                 cl.append(eq(f"labelling[{tag}]", shape, counts, "reported outcome shape == outcome counts in time order"))
             else:
                 n = 1
@@ -344,11 +347,11 @@ class ZeroProbabilityBranch(E2Contract):
     """an outcome of exactly zero probability: probability 0, zero post-state, the rest unchanged"""
     name = "compose(MProcess, State) with a zero-probability outcome"
     prop = "C06"
-    targets = (OPS + ":_compose_qoperations_MProcess_State_for_States",)
-    max_paths = 16
+    targets = (OPS + ":_compose_qoperations_MProcess_State_for_States", OPS + ":_compose_qoperations_Povm_StateEnsemble")
+    max_paths = 32
 
     def configs(self, tier):
-        return [("1q", 3, 0), ("1q", 3, 1)] + ([("1qt", 3, 0)] if tier == "thorough" else [])
+        return [("1q", 3, 0), ("1q", 3, 1), ("1q", 3, 2)] + ([("1qt", 3, 0), ("1q", 4, 2)] if tier == "thorough" else [])
 
     def inputs(self, W, cfg, mk):
         s, m, zero = cfg
@@ -364,19 +367,28 @@ class ZeroProbabilityBranch(E2Contract):
         kind, ref = spec_chain(W, c_sys, [("mprocess", list(mp_full.hss)), ("state", [st.vec])])
         for idx, v in ref.items():
             mk.require(v[0] >= 2 * EPS)
-        return dict(mp=mp, st=st, ref=ref)
+        # a POVM measured afterwards, with an outcome count different from the number of ensemble members
+        pv = param_obj(W, mk, "povm", c_sys, 2, "e")
+        kind2, joint = spec_chain(W, c_sys, [("povm", list(pv.vecs)), ("mprocess", list(mp_full.hss)), ("state", [st.vec])])
+        for idx, v in joint.items():
+            mk.require(v >= 2 * EPS)
+        return dict(mp=mp, st=st, ref=ref, pv=pv, joint=joint)
 
     def sample(self, cfg, names, rng):
+        import math
         vals = {n: rng.uniform(-0.05, 0.05) for n in names}
         s, m, zero = cfg
         d = DIMS[s]
         for x in range(m - 2):
             vals[f"m_{x * d ** 4}"] = 1.0 / (m - 1) + rng.uniform(-0.03, 0.03)
+        vals["e_0"] = math.sqrt(d) / 2 + rng.uniform(-0.03, 0.03)
         return vals
 
     def run(self, W, cfg, inp):
-        r = W.mod(OPS).compose_qoperations(inp["mp"], inp["st"])
-        return dict(ps=r.prob_dist.ps, states=[x.vec for x in r.states])
+        ops = W.mod(OPS)
+        r = ops.compose_qoperations(inp["mp"], inp["st"])
+        j = ops.compose_qoperations(inp["pv"], r)
+        return dict(ps=r.prob_dist.ps, states=[x.vec for x in r.states], joint=j.ps, joint_shape=list(j.shape))
 
     def post(self, W, cfg, inp, out):
         s, m, zero = cfg
@@ -390,6 +402,13 @@ class ZeroProbabilityBranch(E2Contract):
             cl.append(eq(f"other-outcome[{x}]/probability", out["ps"][x], ref[(k,)][0], "the other probabilities are the Born probabilities"))
             cl.append(eq(f"other-outcome[{x}]/state", S.op_from_vec(c_sys, out["states"][x]) * ref[(k,)][0], ref[(k,)][1],
                          "and their post-states are Lambda_x(rho)/p_x"))
+        want = []
+        for x in range(m):
+            for y in range(2):
+                want.append(0 if x == zero else inp["joint"][(others.index(x), y)])
+        cl += [eq("povm-afterwards/shape", out["joint_shape"], [m, 2], "a POVM measured afterwards: joint outcome shape (earlier measurement first)"),
+               eq("povm-afterwards/joint-distribution", out["joint"], want,
+                  "joint probabilities: zero row for the impossible outcome (one entry per POVM outcome), Born probabilities Tr(E_y Lambda_x(rho)) elsewhere")]
         return cl
 
 
